@@ -1,0 +1,84 @@
+//go:build verif
+
+// Contracts for the verification machinery in /verif (govc). This file is only compiled with -tags verif;
+// it adds no behaviour to the package. Syntax: see /verif/DESIGN.md, Appendix A.
+package htree
+
+import "crypto/sha256"
+
+// verifAssume / verifAssert are the harness primitives: govc treats them as assumption and obligation;
+// natively (replays) a violated assertion panics with its label.
+func verifAssume(c bool) {
+	if !c {
+		panic("verifAssume: precondition of the harness not met")
+	}
+}
+
+func verifAssert(label string, c bool) {
+	if !c {
+		panic("verifAssert violated: " + label)
+	}
+}
+
+// ------------------------------------------------------------------------------------------------
+// C01 / C08 (owner: con-c01)
+
+// BuildWith writes only the tree's own arrays (t.levels[*][*]) and t.width / t.root.
+//@ func (*HTree).BuildWith
+//@   assigns internal
+
+//@ func (*HTree).Root
+//@   assigns nothing
+//@   ensures value: result == t.root
+
+// spec_node / spec_leaf: the reference hashes of the transaction-internal Merkle tree:
+// inner node = SHA-256(NodePrefix || left || right), leaf = SHA-256(LeafPrefix || entry digest).
+func spec_node(l, r [sha256.Size]byte) [sha256.Size]byte {
+	b := [1 + sha256.Size*2]byte{NodePrefix}
+	copy(b[1:], l[:])
+	copy(b[1+sha256.Size:], r[:])
+	return sha256.Sum256(b[:])
+}
+
+func spec_leaf(d [sha256.Size]byte) [sha256.Size]byte {
+	b := [1 + sha256.Size]byte{LeafPrefix}
+	copy(b[1:], d[:])
+	return sha256.Sum256(b[:])
+}
+
+// spec_hdig: reference evaluation of an inclusion path of the transaction tree. cur is the digest of the node at
+// position i of its level, r the position of the last node of that level, terms the remaining proof terms (bottom-up).
+// The node is a left child iff i is even and it is not the last node of its level (an unpaired last node is promoted
+// unchanged, see BuildWith).
+func spec_hdig(terms [][sha256.Size]byte, i, r int, cur [sha256.Size]byte) [sha256.Size]byte {
+	if len(terms) == 0 {
+		return cur
+	}
+	lt, rt := terms[0], cur
+	if i%2 == 0 && i != r {
+		lt, rt = cur, terms[0]
+	}
+	return spec_hdig(terms[1:], i/2, r/2, spec_node(lt, rt))
+}
+
+// spec_hup: the position of the ancestor n levels above position i (Go division: rounds towards zero).
+func spec_hup(n int, i int) int {
+	if n <= 0 {
+		return i
+	}
+	return spec_hup(n-1, i/2)
+}
+
+// The proof is accepted iff, when the terms are exhausted, the path has reached the single node of the top level
+// (position of the node == position of the last node) and the computed digest is root.
+//@ func VerifyInclusion
+//@   pure
+//@   assigns nothing
+//@   ensures nonnil: result ==> proof != nil
+//@   ensures top: result ==> spec_hup(len(proof.Terms), proof.Leaf) == spec_hup(len(proof.Terms), proof.Width-1)
+//@   ensures digest: result ==> spec_hdig(proof.Terms, proof.Leaf, proof.Width-1, spec_leaf(digest)) == root
+//@   ensures strong: proof != nil && spec_hup(len(proof.Terms), proof.Leaf) == spec_hup(len(proof.Terms), proof.Width-1)
+//@        && spec_hdig(proof.Terms, proof.Leaf, proof.Width-1, spec_leaf(digest)) == root ==> result
+//@   loop 1 invariant path: spec_hdig(old(proof.Terms)[rangeindex+1:], i, r, calcRoot) == old(spec_hdig(proof.Terms, proof.Leaf, proof.Width-1, spec_leaf(digest)))
+//@   loop 1 invariant upi: spec_hup(len(proof.Terms)-rangeindex-1, i) == spec_hup(len(proof.Terms), proof.Leaf)
+//@   loop 1 invariant upr: spec_hup(len(proof.Terms)-rangeindex-1, r) == spec_hup(len(proof.Terms), proof.Width-1)
